@@ -574,9 +574,19 @@ fn gen_scn(rng: &mut Prng, run_seed: u64, i: usize) -> Option<Scn> {
     if rng.coin() {
         opts.min_primes = 2;
     }
+    // now and then as many primes as the library allows (64), or nearly
+    let many_primes = i % 150 == 61;
+    if many_primes {
+        let k = *rng.pick(&[64usize, 64, 63, 33]);
+        opts.ns = vec![8, 16];
+        opts.min_primes = k;
+        opts.max_primes = k;
+        opts.qbits = vec![20, 22, 24, 25, 26, 28, 30];
+        opts.tbits = vec![8, 13];
+    }
     // one deployment in six comes with a decoy context (see Scn::decoy): the primes are then drawn
     // for twice the ring degree, so that they suit both degrees
-    let decoy = if !big && rng.chance(1, 6) { rng.range(1, 2) as u64 } else { 0 };
+    let decoy = if !big && !many_primes && rng.chance(1, 6) { rng.range(1, 2) as u64 } else { 0 };
     let spec = if decoy != 0 {
         let mut o2 = opts.clone();
         o2.ns = opts.ns.iter().map(|n| n * 2).collect();
@@ -590,7 +600,10 @@ fn gen_scn(rng: &mut Prng, run_seed: u64, i: usize) -> Option<Scn> {
     let mut objects = Vec::new();
     const BIG_KINDS: &[&str] = &["plain", "sk", "ct", "ctfull", "ctterms", "pk", "poly", "plain1d", "plain2d", "cipher1d", "params", "vec", "hugevec", "hugeplain"];
     for j in 0..count {
-        let kind = if big {
+        const MANY_KINDS: &[&str] = &["params", "plain", "ct", "sk", "pk", "parmsid", "vec", "ctfull", "poly"];
+        let kind = if many_primes {
+            MANY_KINDS[(i + j * 5 + rng.usize_below(MANY_KINDS.len())) % MANY_KINDS.len()]
+        } else if big {
             BIG_KINDS[(i + j * 5 + rng.usize_below(BIG_KINDS.len())) % BIG_KINDS.len()]
         } else {
             objs::KINDS[(i * 7 + j * 5 + rng.usize_below(objs::KINDS.len())) % objs::KINDS.len()]
